@@ -7,7 +7,7 @@ exactly: the canonical minimal pushes of the canonical items, with every signatu
 key (in key order for multisig).  The model classifies the locking script by its bytes, parses the
 unlocking data, and verifies each signature with models/ec.py against models/sighash.py.
 
-coin = {"sig": "btc" | "bch" | "btg"}; for fork-id coins STRICTENC is off (the statement's carve-out):
+coin = {"sig": "btc" | "bch" | "btg" | "grs"} (grs: Groestlcoin, single SHA256 digests); for fork-id coins STRICTENC is off (the statement's carve-out):
 hash types are not required to be "defined", but must carry the fork-id bit, and digests are BIP143.
 """
 import hashlib
@@ -197,9 +197,9 @@ class Validator(object):
                 return None
             d = sh.bip143(tx, idx, script_code, value, ht, forkid=79 if self.coin["sig"] == "btg" else None)
         elif witness:
-            d = sh.bip143(tx, idx, script_code, value, ht)
+            d = sh.bip143(tx, idx, script_code, value, ht, single_sha=self.coin["sig"] == "grs")
         else:
-            d = sh.legacy(tx, idx, script_code, ht)
+            d = sh.legacy(tx, idx, script_code, ht, single_sha=self.coin["sig"] == "grs")
         self.digests.append((idx, ht, witness, d))
         return d
 
